@@ -106,11 +106,11 @@ type ScB struct {
 	// Polls: the signal that is the daemon's (single) current feed at each poll, or both signals
 	// ("S1+S2") — only allowed when it is the only poll (Go's map iteration order is not controlled
 	// in this binary; with one poll the order cannot influence the control flow).
-	Polls   []string
-	Sleep   bool // the signaller sleeps its polling interval (1 s) between polls; otherwise polls are back to back
+	Polls []string
+	Sleep bool // the signaller sleeps its polling interval (1 s) between polls; otherwise polls are back to back
 	// Gaps, when set, is the virtual time slept after each poll instead (the signaller's polls in between are
 	// left out: with the single current feed in flight they request nothing)
-	Gaps []time.Duration
+	Gaps    []time.Duration
 	MaxTry  uint64
 	Timeout time.Duration // broadcast timeout (tx lookups are polled every second)
 }
@@ -118,7 +118,7 @@ type ScB struct {
 type subInfo struct {
 	uuid     string
 	signals  []string
-	decided  int // sequence number of the decision (answer of the price service)
+	decided  int           // sequence number of the decision (answer of the price service)
 	at       time.Duration // virtual time of the decision
 	firstAct int
 	lastAct  int
